@@ -2,6 +2,7 @@ package main
 
 import (
 	"fmt"
+	"os"
 	"go/types"
 	"runtime/debug"
 	"strings"
@@ -54,6 +55,9 @@ func (e *Engine) verifyFunc(fn *ssa.Function, fc *FuncContract) *FuncReport {
 		dec := work[len(work)-1]
 		work = work[:len(work)-1]
 		rep.Paths++
+		if os.Getenv("GOVC_DEBUG") != "" && rep.Paths%20 == 0 {
+			fmt.Fprintf(os.Stderr, "[%s] paths=%d worklist=%d decisions=%v\n", name, rep.Paths, len(work), dec)
+		}
 		if rep.Paths > 20000 {
 			rep.Unsupported = append(rep.Unsupported, "path budget exceeded")
 			break
